@@ -67,6 +67,9 @@ func c14Prop(rt *rapid.T, rec *ev.Recorder) {
 		switch haltKind = rapid.SampledFrom([]string{"gap-forward", "gap-backward", "duplicate"}).Draw(rt, "haltKind"); haltKind {
 		case "gap-forward":
 			wrong = expected + uint32(rapid.IntRange(1, 5).Draw(rt, "fwd"))
+			if sp := rapid.SampledFrom([]uint32{0, 0, 1<<32 - 1, 1<<32 - 2, 1 << 31}).Draw(rt, "farAheadCount"); sp > expected {
+				wrong = sp // a count far ahead, up to the largest the event field can carry
+			}
 		case "gap-backward":
 			if expected >= 2 {
 				wrong = expected - 2
@@ -120,6 +123,12 @@ func c14Prop(rt *rapid.T, rec *ev.Recorder) {
 		}
 		tmp.Evs = append(tmp.Evs, evSpec{Kind: "infoV2", InfoV2: &l1infotreesync.UpdateL1InfoTreeV2{CurrentL1InfoRoot: root, LeafCount: cnt, Blockhash: common.Hash{9}, MinTimestamp: 1}})
 		hb = tmp
+	}
+	if rapid.IntRange(0, 2).Draw(rt, "restartBeforeTheInconsistentBlock") == 0 {
+		// the inconsistency is the first thing a freshly started node sees (its tree cache is not built yet)
+		if err := S.restart(); err != nil {
+			fatal(rt, "restart: %v", err)
+		}
 	}
 	nBefore := blockCount(path)
 	err = S.process(hb)
